@@ -303,7 +303,8 @@ def check_cli_counts(ctx, st, ks, subprocess_too):
 
 def shards(tier, seed):
     n = 16
-    return [('gen', k, tier, seed) for k in range(n)] + [('cli', tier, seed)] + [('kinds', k, tier, seed) for k in range(4)]
+    return [('gen', k, tier, seed) for k in range(n)] + [('cli', tier, seed)] + [('kinds', k, tier, seed) for k in range(4)] \
+        + [('shadow', 0, tier, seed)]
 
 
 def run_shard(desc):
@@ -339,6 +340,20 @@ def run_shard(desc):
                 return recs
             core.hyp_drive(st, PROPERTY, hst.randoms(use_true_random=False), body, n,
                            core.derive_seed(seed, 'C04kinds', k))
+        elif desc[0] == 'shadow':
+            # local declarations that share their names with differently typed GLOBAL elements: a source kind that
+            # resolves the children of a lazily loaded root by name sees another declaration than the full tree does
+            from vf.checks import c06
+            _, k, tier, seed = desc
+            n = 120 if tier == 'thorough' else 20
+
+            def body(rnd, st_):
+                doc, _n = c06.shadow_doc(rnd)
+                cls = xmlschema.XMLSchema11 if rnd.random() < 0.3 else xmlschema.XMLSchema10
+                st_.cls('shadowed_global_names')
+                return check_doc(cls, c06.SHADOW_XSD, doc, ctx, st_, label='shadow')
+            core.hyp_drive(st, PROPERTY, hst.randoms(use_true_random=False), body, n,
+                           core.derive_seed(seed, 'C04shadow', k))
         else:
             _, k, tier, seed = desc
             n = 200 if tier == "thorough" else 30
